@@ -815,9 +815,14 @@ theorem closed_of_closedFrom (ns : List Node) (h : closedFrom 0 ns = true) : Clo
   have := closedFrom_spec ns 0 h k n hk d hd
   omega
 
-/-- the laws of the structural operations the meta pass relies on.  `one v` / `stOf v` observe on a
-    value what the pass reads from the recorded type (one-dimensional array; scalar type). -/
-structure MetaLaws (sem : Op → List V → V) (one : V → Bool) (stOf : V → Nat) : Prop where
+/-- the laws of the structural operations the meta pass relies on.  `tyv v` is the type summary of
+    a value (what the harness records in `Node.ty`: `arr nd st` for scalars / arrays, `vec e` for
+    vectors, `other` for everything else).  The pass reads recorded types to choose between `Get`
+    and `GetSlice`, to cancel B2A∘A2B, and the nodes it creates get re-inferred types — hence the
+    four typing laws.  (Earlier versions of this file used two observations `one` / `stOf`; they
+    cannot express the type of a created `GetSlice` node, which the pass reads again when vectors
+    of arrays are nested.) -/
+structure MetaLaws (sem : Op → List V → V) (tyv : V → Ty) : Prop where
   tupleGet : ∀ (vs : List V) (j : Nat) (h : j < vs.length),
     sem (.tupleGet j) [sem .createTuple vs] = vs[j]
   namedGet : ∀ (names : List Nat) (vs : List V) (j : Nat) (h : j < vs.length), names.length = vs.length →
@@ -828,15 +833,71 @@ structure MetaLaws (sem : Op → List V → V) (one : V → Bool) (stOf : V → 
     sem .vectorGet [sem .zip vs, i] = sem .createTuple (vs.map fun v => sem .vectorGet [v, i])
   a2vGet : ∀ (a : V) (vid c : Nat),
     sem .vectorGet [sem .arrayToVector [a], sem (.constant vid (some c)) []] =
-      if one a then sem (.get c) [a] else sem (.getSlice c) [a]
+      match tyv a with
+      | .arr 1 _ => sem (.get c) [a]
+      | _ => sem (.getSlice c) [a]
   a2b_b2a : ∀ (x : V) (st : Nat), sem .a2b [sem (.b2a st) [x]] = x
-  b2a_a2b : ∀ (x : V), sem (.b2a (stOf x)) [sem .a2b [x]] = x
+  b2a_a2b : ∀ (x : V) (nd st : Nat), tyv x = .arr nd st → sem (.b2a st) [sem .a2b [x]] = x
+  ty_get : ∀ (a : V) (c st : Nat), tyv a = .arr 1 st → tyv (sem (.get c) [a]) = .arr 0 st
+  ty_getSlice : ∀ (a : V) (c : Nat), tyv (sem (.getSlice c) [a]) =
+      match tyv a with
+      | .arr nd st => .arr (nd - 1) st
+      | _ => .other
+  ty_vectorGet : ∀ (v i : V) (e : Ty), tyv v = .vec e → tyv (sem .vectorGet [v, i]) = e
+  ty_createTuple : ∀ (vs : List V), tyv (sem .createTuple vs) = .other
 
-/-- the recorded type summaries describe the values (used by the meta pass for A2B/B2A and Get) -/
+/-- the recorded type summaries describe the values (the meta pass reads them for A2B/B2A and Get) -/
 def TyOK (sem : Op → List V → V) (inp : Nat → V) (dv : V) (rnd : Nat → List V → V)
-    (one : V → Bool) (stOf : V → Nat) (ns : List Node) : Prop :=
-  ∀ (i : Nat) (n : Node), ns[i]? = some n → ∀ nd st, n.ty = .arr nd st →
-    one ((eval sem inp dv rnd ns).getD i dv) = (nd == 1) ∧ stOf ((eval sem inp dv rnd ns).getD i dv) = st
+    (tyv : V → Ty) (ns : List Node) : Prop :=
+  ∀ (i : Nat) (n : Node), ns[i]? = some n → tyv ((eval sem inp dv rnd ns).getD i dv) = n.ty
+
+/-- arities the type checker of ciphercore guarantees and the meta pass silently relies on
+    (`k` = number of dependencies); field names of a named tuple are distinct -/
+def arityOK (op : Op) (k : Nat) : Bool :=
+  match op with
+  | .constant _ _ => k == 0
+  | .arrayToVector => k == 1
+  | .a2b => k == 1
+  | .b2a _ => k == 1
+  | .createNamedTuple names => decide names.Nodup && names.length == k
+  | _ => true
+
+def metaWF (n : Node) : Bool := arityOK n.op n.deps.length
+
+def MetaWF (ns : List Node) : Prop := ∀ n ∈ ns, metaWF n = true
+
+/-- `VectorGet` is applied to vectors and `Zip` to vectors only (guaranteed by the type checker of
+    ciphercore): stated on the values, like `TyOK` -/
+def VecOK (sem : Op → List V → V) (inp : Nat → V) (dv : V) (rnd : Nat → List V → V)
+    (tyv : V → Ty) (ns : List Node) : Prop :=
+  ∀ (i : Nat) (n : Node), ns[i]? = some n →
+    (n.op = .vectorGet → ∀ d, n.deps.head? = some d →
+      ∃ e, tyv ((eval sem inp dv rnd ns).getD d dv) = .vec e) ∧
+    (n.op = .zip → ∀ d ∈ n.deps, ∃ e, tyv ((eval sem inp dv rnd ns).getD d dv) = .vec e)
+
+/-- the same on the recorded types -/
+def VecWF (ns : List Node) : Prop :=
+  ∀ (i : Nat) (n : Node), ns[i]? = some n →
+    (n.op = .vectorGet → ∀ d, n.deps.head? = some d → ∃ e, tyOf ns d = .vec e) ∧
+    (n.op = .zip → ∀ d ∈ n.deps, ∃ e, tyOf ns d = .vec e)
+
+theorem VecWF.ok {sem : Op → List V → V} {inp : Nat → V} {dv : V} {rnd : Nat → List V → V}
+    {tyv : V → Ty} {ns : List Node} (hc : Closed ns) (h : VecWF ns)
+    (hty : TyOK sem inp dv rnd tyv ns) : VecOK sem inp dv rnd tyv ns := by
+  have key : ∀ (i : Nat) (n : Node) (d : Nat), ns[i]? = some n → d ∈ n.deps → ∀ e, tyOf ns d = .vec e →
+      tyv ((eval sem inp dv rnd ns).getD d dv) = .vec e := by
+    intro i n d hn hd e he
+    have hdi : d < i := hc i n hn d hd
+    have hdl : d < ns.length := Nat.lt_trans hdi (lt_of_getElem?_some hn)
+    rw [hty d ns[d] (List.getElem?_eq_getElem hdl), ← he]
+    unfold tyOf
+    rw [List.getD_eq_getElem?_getD, List.getElem?_eq_getElem hdl]; rfl
+  intro i n hn
+  refine ⟨fun hop d hd => ?_, fun hop d hd => ?_⟩
+  · obtain ⟨e, he⟩ := (h i n hn).1 hop d hd
+    exact ⟨e, key i n d hn (List.mem_of_mem_head? hd) e he⟩
+  · obtain ⟨e, he⟩ := (h i n hn).2 hop d hd
+    exact ⟨e, key i n d hn hd e he⟩
 
 theorem maps_join {m1 m2 : Mapping} {i k : Nat} :
     Maps (join m1 m2) i k ↔ ∃ a, Maps m1 i a ∧ Maps m2 a k := by
